@@ -690,7 +690,6 @@ def transitivity_wd(W):
     S = cuberoot(W) + cuberoot(W.T)  # symmetrized weights matrix ^1/3
     K = np.sum(A + A.T, axis=1)  # total degree (in+out)
     cyc3 = np.diag(np.dot(S, np.dot(S, S))) / 2  # number of 3-cycles
-    K[np.where(cyc3 == 0)] = np.inf  # if no 3-cycles exist, make T=0
     # number of all possible 3-cycles
     CYC3 = K * (K - 1) - 2 * np.diag(np.dot(A, A))
     return np.sum(cyc3) / np.sum(CYC3)  # transitivity
